@@ -36,7 +36,7 @@ def check_decoded(ck, it, env, tm, fn, data, T_len):
     N = binop("+", dl, C(7))
     Nl = linearize(N)
     Tl = linearize(T_len)
-    simp = lambda v: D.simplify(D.simplify(v, env.facts), env.facts)
+    _sc = {}; simp = lambda v: D.simplify(D.simplify(v, env.facts, _sc), env.facts, _sc)
     for name, path, off, w in (("packet_version", "ccsds_version", 0, 3), ("packet_type", "sp_header.packet_type", 3, 1),
                                ("sec_header_flag", "sp_header.sec_header_flag", 4, 1), ("apid", "apid", 5, 11),
                                ("seq_flags", "sp_header.seq_flags", 16, 2), ("seq_count", "seq_count", 18, 14),
